@@ -94,9 +94,14 @@ pub enum Perturb {
     /// one letter of a name / meridian replaced by a non-ASCII look-alike (long s, Kelvin sign,
     /// dotless i, full-width letter): must not be folded onto the ASCII letter
     Lookalike,
+    /// one character of a name / meridian (letters and the dots of A.M. / P.M.) with a single
+    /// bit flipped (7 bits x every position), unless that gives the other letter case or
+    /// another valid name: such text denotes nothing
+    BitFlip,
 }
 
-pub const PERTURBS: [Perturb; 25] = [
+pub const PERTURBS: [Perturb; 26] = [
+    Perturb::BitFlip,
     Perturb::Lookalike,
     Perturb::Leftover,
     Perturb::Month0,
@@ -152,6 +157,7 @@ pub fn perturb_name(p: Perturb) -> &'static str {
         Perturb::IntervalFieldRange => "neg-interval-field-out-of-range",
         Perturb::IntervalPastLimit => "neg-interval-past-limit",
         Perturb::Lookalike => "neg-unicode-lookalike-letter",
+        Perturb::BitFlip => "neg-one-bit-flipped-in-a-name",
     }
 }
 
@@ -439,7 +445,7 @@ pub fn build(kind: Kind, raw: i128, choices: &[u32], neg: u32) -> Built {
         Perturb::WeekdayWrong => has(&ctoks, &|t| matches!(t, Tok::D | Tok::Day(_) | Tok::Dy(_))),
         Perturb::DoyDisagrees => has(&ctoks, &|t| *t == Tok::DDD) && has(&ctoks, &|t| *t == Tok::DD),
         Perturb::IntervalFieldRange | Perturb::IntervalPastLimit => false,
-        Perturb::Lookalike => has(&ctoks, &|t| matches!(t, Tok::Mon(_) | Tok::Month(_) | Tok::Day(_) | Tok::Dy(_) | Tok::Mer { .. })),
+        Perturb::Lookalike | Perturb::BitFlip => has(&ctoks, &|t| matches!(t, Tok::Mon(_) | Tok::Month(_) | Tok::Day(_) | Tok::Dy(_) | Tok::Mer { .. })),
     };
     if !applicable_p {
         perturb = Perturb::Leftover;
@@ -702,6 +708,16 @@ pub fn build(kind: Kind, raw: i128, choices: &[u32], neg: u32) -> Built {
             piece = lookalike(&piece);
             lookalike_done = true;
         }
+        if perturb == Perturb::BitFlip && !lookalike_done && matches!(t, Tok::Mon(_) | Tok::Month(_) | Tok::Day(_) | Tok::Dy(_) | Tok::Mer { .. }) {
+            let (pos, bit) = (ch.pick(piece.len().max(1)), ch.pick(7));
+            let names: &[&str] = match t {
+                Tok::Mon(_) | Tok::Month(_) => &MONTH_NAMES,
+                Tok::Day(_) | Tok::Dy(_) => &DAY_NAMES,
+                _ => &["AM", "PM", "A.M.", "P.M."],
+            };
+            piece = bitflip(&piece, pos, bit, names, matches!(t, Tok::Mer { .. }));
+            lookalike_done = true;
+        }
         text.push_str(&piece);
     }
     if let Some(d) = &dup_text {
@@ -722,6 +738,33 @@ pub fn build(kind: Kind, raw: i128, choices: &[u32], neg: u32) -> Built {
     }
     let picture = gen::spell_all(&ctoks);
     Built { kind, picture, text, expect: if negative || !in_range { None } else { Some(total) }, tags, negative }
+}
+
+/// Flips one bit of one (ASCII) character of `s`, starting the search at (`pos`, `bit`); a flip
+/// is skipped when it only changes the letter case or when the result could still be read as a
+/// valid name (its first three letters are those of a name of the list; for meridians: equals
+/// one). Falls back to appending '#'.
+pub fn bitflip(s: &str, pos: usize, bit: usize, names: &[&str], whole: bool) -> String {
+    let b = s.as_bytes();
+    if !s.is_ascii() || b.is_empty() {
+        return format!("{s}#");
+    }
+    for k in 0..b.len() * 7 {
+        let (p, bt) = ((pos + k / 7) % b.len(), (bit + k) % 7);
+        let c = b[p] ^ (1u8 << bt);
+        if c.eq_ignore_ascii_case(&b[p]) {
+            continue;
+        }
+        let mut v = b.to_vec();
+        v[p] = c;
+        let up = String::from_utf8(v.clone()).unwrap().to_ascii_uppercase();
+        let still_valid = if whole { names.iter().any(|n| up == *n) } else { names.iter().any(|n| up.len() >= 3 && n.to_ascii_uppercase().starts_with(&up[..3])) };
+        if still_valid {
+            continue;
+        }
+        return String::from_utf8(v).unwrap();
+    }
+    format!("{s}#")
 }
 
 /// Replaces one letter by a non-ASCII character that case-folds or looks like it.
